@@ -20,6 +20,8 @@ type WideQ struct {
 	Tpl       string         `json:"tpl"`
 	Construct string         `json:"construct"`
 	Wrapped   bool           `json:"wrapped,omitempty"`
+	// Side: side-channel options (UnReportedErrors, CompletedCallback, WithVars, WithConstants) that never change what New/Exec return
+	Side Opts `json:"side,omitempty"`
 	// Unordered: row order of the result is not determined by the query (grouping / joins without a
 	// total ORDER BY): compare as multiset.
 	Unordered bool `json:"unordered,omitempty"`
@@ -84,7 +86,11 @@ func (w *WideQ) SQL(plant int, wrapFn string) string {
 	return s
 }
 
-func (w *WideQ) opts() Opts { return Opts{Wrapped: w.Wrapped} }
+func (w *WideQ) opts() Opts {
+	o := w.Side
+	o.Wrapped, o.PG, o.Arrays = w.Wrapped, false, false
+	return o
+}
 
 var wideConstructs = []string{"filter", "case", "in-list", "between", "fn-args", "group", "group-having", "group-by-expr", "whole-agg", "join", "left-join", "parallel-join",
 	"hash-join", "cte", "cte-twice", "derived", "sel-sub", "sel-sub-root", "in-sub", "exists", "not-exists", "union", "union-all", "order-limit", "distinct", "nested-from", "star-sub", "like-is", "join-derived", "cte-join", "in-sub-root", "exists-outer", "having-agg",
@@ -279,6 +285,10 @@ func genWideOn(t *rapid.T, doc map[string]any, sc *c07Schema, only []string) *Wi
 	}
 	if w.Construct != "sel-sub-root" && w.Construct != "in-sub-root" && rapid.IntRange(0, 3).Draw(t, "wrapped") == 0 {
 		w.Wrapped = true
+	}
+	if rapid.IntRange(0, 3).Draw(t, "side") == 0 {
+		b := rapid.IntRange(1, 15).Draw(t, "sidebits")
+		w.Side = Opts{Unreported: b&1 != 0, Callback: b&2 != 0, Vars: b&4 != 0, Consts: b&8 != 0}
 	}
 	return w
 }
